@@ -11,5 +11,52 @@ OUTSIDE = ('the numerical values of the excess for real loads (pygfunction, radi
 KEYS = ['c05_root', 'c05_drilling', 'c05_pred', 'c05_first']
 
 
+def size_method_fn(method_name, twin=False):
+    """GHE.size(method): the returned height is a root of the excess of the *requested* simulation method - every objective evaluation
+    and the final simulation run that method, and the excess the solver saw at the returned height is the excess of that method
+    (real GHE.__init__/size/simulate/cost/solve_root; kernels uninterpreted, hourly and hybrid evaluations told apart by their load vectors)"""
+    def fn(e):
+        import z3
+
+        from symx import Sym
+        from ghedesigner.enums import TimestepType
+
+        from . import c13
+        from .search_common import conj
+        ghe = c13.mk_ghe(e, 'a')
+        calls = []
+        inner = ghe._simulate_detailed
+
+        def detailed(q_dot, time_values, g):
+            out = inner(q_dot, time_values, g)
+            calls.append((len(q_dot), ghe.bhe.b.H, out[0][0]))
+            return out
+        ghe._simulate_detailed = detailed
+        method = getattr(TimestepType, method_name)
+        try:
+            ghe.size(method)
+        except ZeroDivisionError:
+            # an excess of exactly 0 at a bracket end divides by zero in solve_root: measure-zero float event (stated in C02/C13 as well)
+            from symx import PathAbort
+            raise PathAbort() from None
+        if twin:
+            return False
+        n_expected = 17520 if method_name == 'HOURLY' else 3          # 24 months of hours / the stub's three hybrid segments (load[2:])
+        cs = [len(calls) >= 3] + [nq == n_expected for nq, _, _ in calls]
+        # the stored temperatures are those of the returned height, simulated with the requested method
+        nq, h, top = calls[-1]
+        cs += [h is ghe.bhe.b.H or h == ghe.bhe.b.H, ghe.hp_eft[0] is top or ghe.hp_eft[0] == top]
+        return conj(cs)
+    return fn
+
+
 def units(tier, seed):
-    return SP.all_units(PROPERTY, KEYS, tier) + SP.rowwise_units(['c05_root'], tier)
+    from symx.runner import Unit
+
+    from . import c13
+    us = SP.all_units(PROPERTY, KEYS, tier) + SP.rowwise_units(['c05_root'], tier)
+    F = ['ground_heat_exchangers.py:GHE.size', 'ground_heat_exchangers.py:GHE.simulate', 'ground_heat_exchangers.py:BaseGHE.cost', 'utilities.py:solve_root']
+    for m in ('HOURLY', 'HYBRID'):
+        us.append(Unit('size_method_%s' % m, size_method_fn(m), None, c13.ghe_setup, F, 'GHE.size(%s) on a 4-borehole field, 24 months; excess values symbolic through uninterpreted kernels' % m,
+                       stubs=['_simulate_detailed -> uninterpreted SIM(H, len(q), len(t), ...)', 'brentq -> arbitrary point of the bracket (objective evaluated there)']))
+    return us
